@@ -412,6 +412,26 @@ DeleteB(b) ==
           /\ UNCHANGED <<db, tx, sess, loadedB>>
        \/ TFail("Delete", "B", b, 0, 0)
 
+(* delete(x for x in A if x.id == a) with bulk=True: one DELETE statement, executed by the database's own ON DELETE
+   rules (CASCADE when the collection cascades, SET NULL for optional references, otherwise the statement is
+   refused); it bypasses the session's objects, so it is only modelled in a session that holds no object and no
+   pending change (C15: no dangling reference after a bulk delete either) *)
+BulkDeleteA(a) ==
+    /\ Open /\ cur.A[a].ex /\ known = {} /\ pendNew = {} /\ pendDel = {} /\ cur = tx
+    /\ LET kids == Kids(cur, a)
+           refused == Rel \in {"o2m", "o2o", "mix"} /\ kids # {} /\ ~Casc /\ BReq
+           after == IF Rel = "m2m" \/ kids = {} THEN RemoveA(cur, a)
+                    ELSE IF Casc THEN RemoveA(RemoveB(cur, kids), a)
+                    ELSE RemoveA(UnlinkB(cur, kids), a)
+       IN \/ /\ ~refused
+             /\ cur' = after /\ tx' = after
+             /\ ev' = Ev("BulkDelete", "A", a, 0, 0, "ok", {})
+             /\ UNCHANGED <<db, sess, pendNew, pendDel, known, loadedB>>
+          \/ /\ refused
+             /\ sess' = "aborted"
+             /\ ev' = Ev("BulkDelete", "A", a, 0, 0, "Integrity", {})
+             /\ UNCHANGED <<db, tx, cur, pendNew, pendDel, known, loadedB>>
+
 ---------------------------------------------------------------------------
 (* reads: answered from cur whether or not the changes were flushed (C10) *)
 ReadFails(op, e, k, x) ==          \* an implicit flush inside a query may hit a transient unique conflict
@@ -546,7 +566,7 @@ Modify == \/ \E k \in AIds, x \in ValsN : CreateA(k, x) \/ SetV(k, x)
           \/ \E k \in BIds, z \in AIds \cup {0} : SetRef(k, z)
           \/ \E k \in BIds, y \in ValsN, z \in AIds \cup {0} : SetMany(k, y, z)
           \/ \E a \in AIds, b \in BIds : CollAdd(a, b) \/ CollRemove(a, b) \/ LAdd(a, b) \/ LRemove(a, b)
-          \/ \E a \in AIds : CollClear(a) \/ DeleteA(a)
+          \/ \E a \in AIds : CollClear(a) \/ DeleteA(a) \/ BulkDeleteA(a)
           \/ \E b \in BIds : DeleteB(b)
 
 Reads  == \/ \E k \in AIds : GetV(k) \/ Coll(k) \/ LColl(k)
